@@ -273,7 +273,12 @@ def run_case(case, res):
     except CaseTimeout:
         res.inconc("case watchdog fired")
     except Exception:
-        fail("exception escaped from traversal: " + short_tb())
+        from ..core import exc_in_library
+
+        if exc_in_library():
+            fail("exception escaped from traversal: " + short_tb())
+        else:
+            res.inconc("harness error: " + short_tb())
 
 
 def cases_for_shape(f, *, cls, all_forms, rng):
